@@ -121,10 +121,12 @@ def step (line : String) : String :=
     if rest.length == 8 || rest.length == 9 then s!"opt ok steps={rest.getD 6 "?"}" else "bad-op"
   | "sel" :: ind :: rest =>
     match rest.mapM String.toInt? with
-    | some (mu :: m :: n :: nums) =>
+    | some (mu :: m :: n :: nums0) =>
+      let hvr := ind == "hvr"
+      let nums := if hvr then nums0.drop m.toNat else nums0
       let S := chunk m.toNat n.toNat nums
       let ranks := fastSort S
-      match indicatorOf ind m.toNat (refAbove m.toNat S) with
+      match indicatorOf (if hvr then "hv" else ind) m.toNat (if hvr then nums0.take m.toNat else refAbove m.toNat S) with
       | some mk =>
         let flags := select (mk S) ranks mu.toNat
         let (r, _) := lastFront ranks mu.toNat
